@@ -179,6 +179,9 @@ def check_draw_programs(chk, book):
             if a["loggingdraws"] != "0":
                 j = next((k for k, e in enumerate(rec.events) if e.cls == "l" and e.op in "sedpu"), -1)
                 problems.append(f"{a['loggingdraws']} generator-moving event(s) inside logging code, first: {rec.describe(j)}")
+        if r.get("must_be_empty") and rec.signature():
+            problems.append(f"{len(rec.signature())} generator event(s) where only logging markers may occur, first: "
+                            + next(e.describe() for e in rec.events if e.op != "n"))
         r0 = ref.setdefault(r["subject"], (r, a))
         if r0[0] is not r:
             rec0, a0 = r0[0]["rec"], r0[1]
@@ -211,14 +214,14 @@ def check_draw_programs(chk, book):
         chk.extra_cov["draw_programs"] = stats
         found = None
         key = (r["subject"], tuple(sorted(p.split(":")[0] for p in problems)))
-        if r["search"] is not None and key not in searched and len(searched) < 6:
-            searched.add(key)
+        if key in searched:
+            continue          # the same defect of the same subject is reported once
+        searched.add(key)
+        if r["search"] is not None and len(searched) <= 6:
             try:
                 found = r["search"](a, rec)
             except Exception as e:  # noqa
                 chk.note(f"targeted search for '{r['subject']}' raised {type(e).__name__}: {str(e)[:80]}")
-        elif key in searched:
-            continue          # the same defect of the same subject was searched already
         if found is not None:
             chk.impl_failure({**found[0], "draw_program_analysis": what[:600]}, found[1] + " — found by a search aimed at: " + what[:400])
         else:
@@ -426,7 +429,7 @@ def make_baselines(chk, E, data, tmp, book=None):
                     m2.fit(data, "mcmc_saem", n_iter=n, n_burn_in_iter=2, seed=3, progress_bar=False)
             cj = {"part": "logging", "path": False, "print": None, "save": None, "plot": None, "pp": None, "ow": False, "dne": False, "n": n}
             if params_digest(m2) != cache[n]["params"] or full_digest(m2) != cache[n]["full"]:
-                chk.impl_failure(cj, "the same seeded fit without logging, repeated with the draw recorder on, differs bitwise")
+                chk.impl_failure(cj, "the same seeded fit without logging, repeated (this time with the draw recorder on), differs bitwise from the first run")
             if book is not None:
                 book.add(f"fit logistic (logging grid) n_iter={n}", "no logging", cj, dr, None)
         finally:
@@ -629,7 +632,10 @@ def part_b(chk, E, tmp, book=None):
                 chk.impl_failure(cj, f"{name} after '{h}': raised {type(e).__name__}: {str(e)[:100]}")
                 continue
             if book is not None:
-                book.add(name, h, cj, dr, search)
+                # the pooled run must show, in the calling process, the very program of the in-process run (what workers draw is
+                # outside the record: every draw of this algorithm is made before the jobs are dispatched)
+                pooled = " n_jobs=2" in name
+                book.add(name.replace(" n_jobs=2", ""), ("n_jobs=2 " if pooled else "") + h, cj, dr, search)
             if got != ref:
                 chk.impl_failure(cj, f"{name}: result after history '{h}' differs bitwise from the first run")
             chk.case(("hist", name.split(" seed")[0], h), nontrivial=h != "repeat", sample=cj if len(chk.samples) < 6 else None,
@@ -679,6 +685,66 @@ def ambient_dtype_part(chk, E, tmp, book=None):
                                                                                            "subject": name.split(" seed")[0]})
 
 
+def forced_logging_probe(chk, E, tmp, book):
+    """(thorough) The logging actions at iteration numbers no sampled fit reaches: after a short real fit with every periodicity 1,
+    `FitOutputManager.iteration` is called for iterations 9…32 on the very objects of that fit, under the draw recorder.  The
+    recorded program must consist of markers only.  A generator event found here is searched for with a real fit long enough to
+    reach that iteration."""
+    from leaspy.algo import AlgorithmSettings, algorithm_factory
+    from leaspy.io.data import Dataset
+    _, data = A.cohort("multi")
+    work = tempfile.mkdtemp(prefix="forced_", dir=tmp)
+    cwd = os.getcwd()
+    os.chdir(work)
+    first, last = 9, 32
+    c = dict(path=True, print=1, save=1, plot=1, pp=1, ow=False, dne=False)
+    cj = {**log_case_json(c), "forced_iterations": [first, last]}
+    try:
+        try:
+            m = E.model_factory("logistic", dimension=3, source_dimension=1)
+            st = AlgorithmSettings("mcmc_saem", n_iter=3, n_burn_in_iter=1, seed=3, progress_bar=False)
+            st.set_logs(path=os.path.join(work, "logs"), print_periodicity=1, save_periodicity=1, plot_periodicity=1,
+                        plot_patient_periodicity=1)
+            algo = algorithm_factory(st)
+            ds = Dataset(data)
+            with core.quiet():
+                m.initialize(ds)
+                algo.run(m, ds)
+            with D.DrawRecorder(3) as dr:
+                with core.quiet():
+                    for k in range(first, last + 1):
+                        algo.current_iteration = k
+                        algo.output_manager.iteration(algo, m, ds)
+        except Exception as e:  # noqa
+            chk.impl_failure(cj, f"logging actions called at iterations {first}…{last} after a real fit: raised {type(e).__name__}: {str(e)[:100]}")
+            return
+
+        def search(answer, rec):
+            # iteration at which the first generator event was recorded = number of print markers before it
+            seen = 0
+            k_bad = None
+            for e in rec.events:
+                if e.op == "n" and e.a == 0:
+                    seen += 1
+                elif e.op != "n":
+                    k_bad = first + seen - 1
+                    break
+            if k_bad is None:
+                return None
+            n = k_bad + 2
+            _, d2 = A.cohort("multi")
+            base, got = plain_fit_digest(E, d2, None, n, tmp), plain_fit_digest(E, d2, c, n, tmp)
+            if base is not None and got is not None and base != got:
+                return ({**log_case_json(c), "n": n}, f"fit of {n} iterations: final parameters / latent values differ bitwise from the run without logging")
+            return None
+        book.add(f"logging actions forced at iterations {first}…{last}", "all periodicities 1", cj, dr, search)
+        book.runs[-1]["must_be_empty"] = True       # no reference run exists for this subject: the empty program is the reference
+        chk.case(("forced-logging", first, last), nontrivial=True, tags={"part": "logging-forced"})
+    finally:
+        os.chdir(cwd)
+        shutil.rmtree(work, ignore_errors=True)
+
+
 def probe_findings(chk, E, tmp):
     _, data = A.cohort("multi")
     work = tempfile.mkdtemp(prefix="f6_", dir=tmp)
@@ -710,6 +776,8 @@ def run(chk: core.Check):
         part_a(chk, E, tmp, book)
         part_b(chk, E, tmp, book)
         ambient_dtype_part(chk, E, tmp, book)
+        if chk.tier == "thorough":
+            forced_logging_probe(chk, E, tmp, book)
         check_draw_programs(chk, book)
         probe_findings(chk, E, tmp)
     finally:
